@@ -339,6 +339,7 @@ class Fact:
     const: int | None = None
     text: str = ""
     where: str = ""
+    vtext: str = ""   # value-level description of an opaque condition (which abstract values it relates)
 
     def __repr__(self) -> str:
         if self.kind == "len":
@@ -906,7 +907,8 @@ class Interp:
                 f.where = where
                 st.facts.append(f)
                 return
-        st.facts.append(Fact("opaque", text=("" if truth else "not ") + ast.unparse(node), where=where))
+        vtext = v.text if isinstance(v, CondV) else repr(v)
+        st.facts.append(Fact("opaque", text=("" if truth else "not ") + ast.unparse(node), where=where, vtext=vtext))
 
     # ................................................................ expressions
     def eval1(self, st: State, env: dict[str, Any], node: ast.expr) -> Any:
@@ -930,6 +932,8 @@ class Interp:
             return out
         if isinstance(node, ast.Call):
             return self.eval_call(st, env, node, where)
+        if isinstance(node, ast.BoolOp):
+            return [(s, e, ConstV(c)) for s, e, c in self.cond_paths(st, env, node, where)]
         if isinstance(node, ast.NamedExpr):
             out = []
             for s, e, v in self.eval_paths(st, env, node.value):
@@ -1600,6 +1604,9 @@ class Interp:
         ca, cb = as_const_int(a), as_const_int(b)
         if ca is not None and cb is not None:
             return ConstV(_CMP[opname](ca, cb))
+        if opname in ("==", "!=") and isinstance(a, IntV) and isinstance(b, IntV) and a.kind in ("bits", "fb", "lin") and b.kind == a.kind:
+            if repr(effective(st, a)) == repr(effective(st, b)):
+                return ConstV(opname == "==")
         if isinstance(a, BytesV) and isinstance(b, BytesV) and opname in ("==", "!="):
             return CondV(None, None, text=f"bytes {opname}")
         for x, c, o in ((a, cb, opname), (b, ca, _FLIP[opname])):
@@ -1849,6 +1856,20 @@ def _load(t: ast.expr) -> ast.expr:
 
 def env_update(dst: dict[str, Any], src: dict[str, Any]) -> None:
     pass
+
+
+def effective(st: "State", v: Any) -> Any:
+    """Replace bits that the path's facts pin to a constant by that constant (and drop leading zeros)."""
+    if isinstance(v, IntV) and v.kind == "bits":
+        bits = []
+        for b in v.bits:
+            if isinstance(b, tuple):
+                pin = st.pinned(b)
+                bits.append(pin if pin is not None else b)
+            else:
+                bits.append(b)
+        return IntV("bits", bits=trim_bits(tuple(bits)))
+    return v
 
 
 def subst_loop(v: Any, loop: Loop, index: int) -> Any:
